@@ -36,6 +36,10 @@ def units(tier):
     U("entryexit", "h_entryexit", [N("entryexit")], "findEntryAndExitPoints: false for empty boxes; frame = entry, exit", [ALIASES["entryexit"]],
       backend="sat", mode="ABS", defines=["CXX2C_ABS_ARITH"])
     U("lemma.wrapper", "h_lemma_wrapper", clause="intersects(box, ray) is the boolean of intersects(box, ray, ip)", fns=[ALIASES["intersects"], ALIASES["intersects_ip"]])
+    U("lemma.perm_entryexit", "h_lemma_perm_entryexit", clause="findEntryAndExitPoints: cyclic relabelling of the axes (box and line) leaves the answer unchanged - the three per-axis blocks agree with each other",
+      fns=[ALIASES["entryexit"]], backend=os.environ.get("C14_BE", "kissat"), mode="ABS", defines=["CXX2C_ABS_ARITH"])
+    U("lemma.perm_intersects", "h_lemma_perm_intersects", clause="intersects(box, ray, ip): cyclic relabelling of the axes leaves the answer unchanged",
+      fns=[ALIASES["intersects_ip"]], backend=os.environ.get("C14_BE", "kissat"), mode="ABS", defines=["CXX2C_ABS_ARITH"])
     # lemma.ip_in_box / lemma.entryexit_in_box (reported points lie in the closed box): cvc5 exceeds 25 min on the IEEE formula - not claimed
     return us
 
@@ -47,6 +51,6 @@ def extra_coverage(units, tier):
 NOT_COVERED = [
     "'every reported point lies in the box': attempted (harnesses h_lemma_ip_in_box / h_lemma_entryexit_in_box kept), cvc5 time-out at 25 min; needs NaN-freedom of the clamped quotients, so mode ABS cannot decide it",
     "'true exactly when some pos + t*dir, t >= 0, lies in the box': real-number geometry against rounded quotients - beyond the installed back ends",
-    "points on the surface / on the ray to within rounding; per-axis mirror symmetry of the twelve near-identical blocks",
+    "points on the surface / on the ray to within rounding; mirror symmetry (dir >= 0 vs dir < 0 branches) - only the agreement of the three per-axis blocks with each other is proved",
 ]
 ASSUMPTIONS = ["box corners, origin and direction finite and not NaN", "cxx2c extraction rules; differential validation"]
